@@ -5,7 +5,8 @@
    callbacks of the run, oldest first.  fc/fp: arbitrary CheckParents / Process failure oracles. *)
 From Coq Require Import NArith List.
 From LV Require Import model.Buffer model.Processor spec.ProcessorSpec
-  proofs.ProcessorFrame proofs.ProcessorOrder proofs.ProcessorSem proofs.ProcessorRun.
+  proofs.ProcessorFrame proofs.ProcessorOrder proofs.ProcessorSem proofs.ProcessorRun
+  proofs.ProcessorDone proofs.ProcessorFar.
 Import ListNotations.
 Local Open Scope N_scope.
 
@@ -56,6 +57,29 @@ Theorem C15_sem_zero_after_stop : forall fc fp cap_n cap_s lim_n lim_s h0 steps,
   stopped s = true -> incl (pgs s) (Hd s) -> held_n s = 0 /\ held_s s = 0.
 Proof. exact sem_zero_after_stop. Qed.
 
+(* every event of every batch that finished handling (its done() ran before Stop) has been
+   released exactly once by the time the processor is stopped, whatever its fate.
+   Extra hypothesis: batch ids are distinct (done() is identified by the batch id in the log). *)
+Theorem C15_finished_batch_released_once : forall fc fp cap_n cap_s lim_n lim_s h0 steps b,
+  NoDup (all_g steps) -> NoDup (map b_id (enq steps)) ->
+  let s := prun fc fp cap_n cap_s lim_n lim_s h0 steps in
+  In (SEnq b) steps -> In (PDone (b_id b)) (plog s) -> stopped s = true ->
+  forall g, In g (gs b) -> count_occ N.eq_dec (relg (plog s)) g = 1%nat.
+Proof. exact finished_batch_released_once. Qed.
+
+(* far-future rule: an event copy is handed to Process only if, when it entered process(), its
+   Lamport time was at most (highest Lamport time known then) + 1 + limit.Num — so an event more
+   than that ahead is never processed.  hl_of recomputes "highest known" from the history prefix:
+   the initial value and the Lamport times of the events processed successfully so far. *)
+Theorem C15_far_future : forall fc fp cap_n cap_s lim_n lim_s h0 steps,
+  NoDup (all_g steps) ->
+  let s := prun fc fp cap_n cap_s lim_n lim_s h0 steps in
+  forall pre g e ok post,
+    phist fc fp cap_n cap_s lim_n lim_s h0 steps = pre ++ PProcess g e ok :: post ->
+    exists pre1 pre2, pre = pre1 ++ PHandle g :: pre2
+                      /\ lam (tab s) g <= hl_of h0 (tab s) pre1 + 1 + lim_n.
+Proof. exact far_future. Qed.
+
 (* non-vacuity: an ordered batch of three events whose check results arrive as 2,0,1 while a
    second batch is enqueued in between; the events are handled as 0,1,2 *)
 Definition c15_b1 : batch :=
@@ -91,3 +115,5 @@ Print Assumptions C15_released_at_most_once.
 Print Assumptions C15_sem_balanced.
 Print Assumptions C15_released_exactly_once_after_stop.
 Print Assumptions C15_sem_zero_after_stop.
+Print Assumptions C15_finished_batch_released_once.
+Print Assumptions C15_far_future.
